@@ -614,9 +614,43 @@ def surv_part(ctx, fails, cases=None):
                 runs[trt] = {'ids': [int(x) - case.get('id_offset', 0) for x in pdf['id']], 't': [int(x) for x in pdf['t']], 'pred': [float(x) for x in pdf['d']],
                              'marg': {int(k): float(v) for k, v in g.marginal_outcome.items()},
                              'haz': [float(x) for x in np.asarray(g._outcome_model.predict(gg), dtype=float)]}
+            # the same person-period file with a (time-varying, non-constant) weights column: the stored per-row predictions stay
+            # cumulative incidences -- 1 - running product of (1 - hazard) within id, in [0, 1], non-decreasing -- and the marginal
+            # curve is their weighted mean per period
+            wsum = None
+            if len(case['rows']) % 2 == 0:
+                dfw = df.copy()
+                dfw['w'] = [1 + (int(i) * 7 + int(t) * 3) % 4 for i, t in zip(df['id'], df['t'])]
+                gw = SurvivalGFormula(dfw, idvar='id', exposure='A', outcome='d', time='t', weights='w')
+                gw.outcome_model(case['formula'], print_results=False)
+                basew = gw.gf.copy()
+                wsum = []
+                for trt, _ in TR:
+                    gw.fit(trt)
+                    pw = gw.predicted_df
+                    ggw = basew.copy()
+                    if trt != 'natural':
+                        ggw['A'] = 1 if trt == 'all' else 0
+                    hz_ = pd.Series(np.asarray(gw._outcome_model.predict(ggw), dtype=float), index=ggw.index)
+                    ref_ = 1 - (1 - hz_).groupby(ggw['id']).cumprod()
+                    got_ = pd.Series(np.asarray(pw['d'], dtype=float), index=pw.index)
+                    mref_ = (ref_ * ggw['w']).groupby(ggw['t']).sum() / ggw['w'].groupby(ggw['t']).sum()
+                    wsum.append((trt, float(np.max(np.abs(np.asarray(got_) - np.asarray(ref_.loc[pw.index])))) if len(got_) == len(ref_) else float('inf'),
+                                 float(got_.min()), float(got_.max()),
+                                 float(max(abs(float(gw.marginal_outcome[k]) - float(mref_[k])) for k in mref_.index))))
         except Exception as e:   # noqa
             err = '%s: %s' % (type(e).__name__, str(e)[:120])
         ctx.evaluations += 1
+        if not err and wsum:
+            ctx.count('surv:weighted run')
+            for trt, dmax, lo_, hi_, dm in wsum:
+                ctx.disagreements_checked += 1
+                if not (dmax <= 1e-9) or lo_ < -1e-12 or hi_ > 1 + 1e-12:
+                    fails.append((len(df), 'SurvivalGFormula.weights.predicted', 'SurvivalGFormula(weights=) fit(%r): the stored per-row predictions differ from '
+                                  '1 - cumprod(1 - hazard) within id by %g (range %g..%g)' % (trt, dmax, lo_, hi_), {'part': 'surv', 'case': case}))
+                if not (dm <= 1e-9):
+                    fails.append((len(df), 'SurvivalGFormula.weights.marginal', 'SurvivalGFormula(weights=) fit(%r): marginal_outcome differs from the weighted '
+                                  'mean per period of the cumulative incidences by %g' % (trt, dm), {'part': 'surv', 'case': case}))
         ctx.count('surv:index=' + case['index'])
         ctx.count('surv:periods=%d' % len(times))
         payload = {'part': 'surv', 'case': case}
